@@ -8,7 +8,7 @@ use ctap_types::ctap2::{self, AuthenticatorDataFlags as F};
 use serde_json::json;
 
 const COUNTS: [u32; 6] = [0, 1, 0xFF, 0x100, 0x01020304, 0xFFFFFFFF];
-const KEY_LENS: [usize; 5] = [0, 32, 77, 256, 300];
+const KEY_LENS: [usize; 10] = [0, 32, 77, 256, 300, 600, 621, 622, 639, 640];
 const AAGUID_LENS: [usize; 3] = [16, 0, 17];
 const CAPACITY: usize = 676;
 
@@ -55,6 +55,8 @@ fn g_authdata(src: &mut Src, obs: &mut Obs) -> CaseResult {
     let pat = |n: usize, salt: u32| -> Vec<u8> { (0..n).map(|i| ((i as u32).wrapping_mul(2654435761).wrapping_add(seed ^ salt) >> 13) as u8).collect() };
     let id = pat(id_len, 1);
     let key = pat(KEY_LENS[ki], 2);
+    // in the GetAssertion flavour the optional part can only be supplied as the empty marker
+    let ga_marker = att && !mc;
     let att = att && mc;
     // model
     let mut model = rp.clone();
@@ -98,11 +100,14 @@ fn g_authdata(src: &mut Src, obs: &mut Obs) -> CaseResult {
             rp_id_hash: &rp_hash,
             flags,
             sign_count: count,
-            attested_credential_data: None,
+            attested_credential_data: if ga_marker { Some(ctap2::get_assertion::NoAttestedCredentialData) } else { None },
             extensions: if ext_present { Some(ext) } else { None },
         }
         .serialize()
     };
+    if ga_marker {
+        obs.label("get_assertion:marker-supplied");
+    }
     let flavour = if mc { "make_credential" } else { "get_assertion" };
     let again = if mc {
         let ext = types::build_mc_ext(&ext_model).map_err(|e| Fail::new("C07:harness", e, json!({})))?;
@@ -219,6 +224,19 @@ pub fn run(ctx: &mut Ctx) {
     for mc in [true, false] {
         for att in [false, true] {
             if !mc && att {
+                // GetAssertion with the (empty) attested-data marker supplied: one case per flag/ext combination
+                for ext in [false, true] {
+                    for fl in 0..16u32 {
+                        let mut w = vec![bit(false), fl, idx((fl as usize) % 7, 7), bit(true), 0, 0, 0, bit(ext)];
+                        for b in 0..4 {
+                            w.push(bit((fl >> b) & 1 == 1));
+                        }
+                        for z in 0..24u32 {
+                            w.push(fl.wrapping_mul(2654435761).wrapping_add(z.wrapping_mul(0x9E3779B9)));
+                        }
+                        items.push(w);
+                    }
+                }
                 continue;
             }
             for ai in 0..3usize {
@@ -274,7 +292,7 @@ pub fn run(ctx: &mut Ctx) {
     }
     ctx.random(&G_AD, &[], ctx.t(150_000, 2_000_000), 120);
     ctx.require(&[
-        "flavour:make_credential", "flavour:get_assertion", "attested-present", "extensions-present", "frontier:fits-within-2",
+        "flavour:make_credential", "flavour:get_assertion", "get_assertion:marker-supplied", "attested-present", "extensions-present", "frontier:fits-within-2",
         "frontier:overflow-within-2", "id>65535", "expect:error", "expect:bytes", "flags:00", "flags:c5",
     ]);
 }
